@@ -23,7 +23,10 @@ def main():
     cenv = dict(os.environ, VERIF_REPO=wt, VERIF_OUT=tmp)
     others = sys.argv[3:]
     res = []
+    only = os.environ.get('SEED_ONLY')
     for k in (1, 2, 3, 4, 5):
+        if only and str(k) not in only.split(','):
+            continue
         patch = os.path.join(out, 'patch%d.diff' % k)
         demo = os.path.join(out, 'demo%d.py' % k)
         if not os.path.exists(patch) or os.path.getsize(patch) == 0:
@@ -60,7 +63,7 @@ def main():
         res.append(r)
         print(json.dumps(r)[:1500])
     shutil.rmtree(tmp, ignore_errors=True)
-    json.dump(res, open(os.path.join(out, 'validation.json'), 'w'), indent=1)
+    json.dump(res, open(os.path.join(out, 'validation%s.json' % ('_' + only.replace(',', '') if only else '')), 'w'), indent=1)
 
 
 if __name__ == '__main__':
